@@ -3,6 +3,7 @@ import Sentinel.Lemmas.WarmUp
 import Sentinel.Lemmas.WarmUpHist
 import Sentinel.Lemmas.WarmUpRun
 import Sentinel.Lemmas.WarmUpReload
+import Sentinel.Lemmas.WarmUpOwn
 /-!
 # C11 — adaptive thresholds stay inside their configured envelope
 
@@ -909,6 +910,71 @@ theorem window_cap_with_reloads (B T : ℚ) (p cf iv t0 : ℕ) (hnd : Known.dege
       linarith
   have h := dinv_run ops d hm hr w
   exact ⟨h, Nat.le_floor h⟩
+
+
+/-! ## window cap on a statistic of the rule's own (any geometry `n × L`; `Lemmas/WarmUpOwn.lean`, via C08's `getSum_eq_ref n L`) -/
+open Sentinel.WU.O
+
+
+/-- the calculator `loadRule` builds for a rule -/
+def calcOf : RuleP ℚ → Calc ℚ
+  | .wu T p cf _ => .warmup (mkCfg T p cf)
+  | .ma m _ => .adaptive m
+
+/-- the state right after loading a valid rule with a statistic of its own (`n` buckets of length `L`, interval `n·L`) on a fresh resource -/
+theorem own_load_state (r : RuleP ℚ) (n L t0 : ℕ) (hn : 0 < n) :
+    (loadRuleG ({} : Sys ℚ) t0 r none true n (n * L) true).own = some (LA.mk n L t0) ∧
+    (∃ a, (loadRuleG ({} : Sys ℚ) t0 r none true n (n * L) true).arr = some a) ∧
+    (loadRuleG ({} : Sys ℚ) t0 r none true n (n * L) true).rule =
+      some (calcOf r, n, n * L) := by
+  have e : n * L / n = L := Nat.mul_div_cancel_left L hn
+  cases r with
+  | wu T p cf iv =>
+    refine ⟨?_, ⟨_, rfl⟩, rfl⟩
+    show some (LA.mk n (n * L / n) t0) = _
+    rw [e]
+  | ma m iv =>
+    refine ⟨?_, ⟨_, rfl⟩, rfl⟩
+    show some (LA.mk n (n * L / n) t0) = _
+    rw [e]
+
+theorem own_oinv_init (total : ℤ) (B : ℚ) (r : RuleP ℚ) (n L t0 : ℕ) (hn : 0 < n) (h0 : 0 < t0)
+    (hv : ∀ m iv, r = .ma m iv → m.valid total = true)
+    (hB : RuleBelow B (calcOf r)) (hB0 : 0 ≤ B) :
+    OInv total B n L t0 (loadRuleG ({} : Sys ℚ) t0 r none true n (n * L) true, []) t0 := by
+  obtain ⟨k1, k2, k3⟩ := own_load_state r n L t0 hn
+  have hri : RInv total (loadRuleG ({} : Sys ℚ) t0 r none true n (n * L) true) :=
+    loadRuleG_rinv (rinv_init total) _ _ _ _ _ _ _ (fun m iv e _ => hv m iv e)
+  refine ⟨hri, ⟨_, k3, hB⟩, ?_, k2, trivial, by simp, le_refl _, h0, ?_⟩
+  · rw [k1]; rfl
+  · intro w
+    have : passInL L ([] : Adm) w (w + n * L - L) = 0 := by simp [passInL]
+    rw [this]; simpa using hB0
+
+/-- **window cap on the rule's own statistic, warm-up (Reject)**: a non-degenerate warm-up rule whose `StatIntervalInMs = n·L` cannot reuse the
+    resource's statistic is loaded on a fresh resource at `t0` and owns a `BucketLeapArray(n, n·L)` (one bucket for every non-round
+    interval, several for 1500 / 3000 ms); after **any** history of requests (any batch sizes, any non-decreasing instants) and memory
+    readings, every aligned window of the rule's interval — `n` consecutive buckets of its own grid — holds at most `T` (hence `⌊T⌋`) admitted tokens -/
+theorem own_window_cap_warmup (total : ℤ) (T : ℚ) (p cf iv n L t0 : ℕ) (hn : 0 < n) (hL : 0 < L) (h0 : 0 < t0)
+    (hnd : Known.degenerateNaN (mkCfg T p cf) = false) (ops : List OOp) (hm : MonoO t0 ops) (w : ℕ) :
+    (passInL L (runO (loadRuleG ({} : Sys ℚ) t0 (.wu T p cf iv) none true n (n * L) true, []) ops).2 w (w + n * L - L) : ℚ) ≤ T ∧
+    passInL L (runO (loadRuleG ({} : Sys ℚ) t0 (.wu T p cf iv) none true n (n * L) true, []) ops).2 w (w + n * L - L) ≤ ⌊T⌋₊ := by
+  have hT : (0 : ℚ) ≤ T := le_of_lt (mkCfg_wf T p cf hnd).Tpos
+  have d := own_oinv_init total T (.wu T p cf iv) n L t0 hn h0 (fun m iv' e => by cases e) ⟨hnd, le_refl _⟩ hT
+  have h := oinv_run hn hL ops d hm w
+  exact ⟨h, Nat.le_floor h⟩
+
+/-- **… memory-adaptive (Reject)**: for a valid rule on its own statistic, whatever the memory readings injected along the history (any
+    integers), every aligned window of the rule's interval holds at most `LowMemUsageThreshold` admitted tokens (each admission was within
+    the interpolated threshold of its reading, `history_admission_within_threshold_adaptive`) -/
+theorem own_window_cap_adaptive (total : ℤ) (m : MemCfg) (hv : m.valid total = true) (iv n L t0 : ℕ) (hn : 0 < n) (hL : 0 < L)
+    (h0 : 0 < t0) (ops : List OOp) (hm : MonoO t0 ops) (w : ℕ) :
+    (passInL L (runO (loadRuleG ({} : Sys ℚ) t0 (.ma m iv) none true n (n * L) true, []) ops).2 w (w + n * L - L) : ℚ) ≤ m.lowT := by
+  have hlow : (0 : ℚ) ≤ m.lowT := by
+    have := ((valid_iff m total).1 hv).1
+    exact_mod_cast le_of_lt this
+  have d := own_oinv_init total (m.lowT : ℚ) (.ma m iv) n L t0 hn h0 (fun m' iv' e => by cases e; exact hv) (le_refl _) hlow
+  exact oinv_run hn hL ops d hm w
 
 
 end Sentinel.C11
